@@ -116,6 +116,7 @@ def extract(repo: str):
         return enum_index[key]
 
     problems = []
+    unexported = []      # declared children whose class the package namespace does not export (a C13 matter)
 
     def kind_of(owner, attr, t, inner=False):
         """-> (lean term, json) for a converter"""
@@ -157,12 +158,14 @@ def extract(repo: str):
             tc = t.__type__
             if tc not in index:
                 problems.append(f"{owner}.{attr}: ListAggregate target {tc} not in package namespace")
+                unexported.append({"owner": owner, "attr": attr, "kind": "listagg", "target": tc.__name__, "module": tc.__module__})
                 return "Kind.unsupported", {"k": "unsupported"}
             return f"Kind.listAgg {index[tc]}", {"k": "listagg", "cls": index[tc], "clsname": tc.__name__}
         if tn is Types.SubAggregate:
             tc = t.__type__
             if tc not in index:
                 problems.append(f"{owner}.{attr}: SubAggregate target {tc} not in package namespace")
+                unexported.append({"owner": owner, "attr": attr, "kind": "sub", "target": tc.__name__, "module": tc.__module__})
                 return "Kind.unsupported", {"k": "unsupported"}
             return f"Kind.sub {index[tc]}", {"k": "sub", "cls": index[tc], "clsname": tc.__name__}
         problems.append(f"{owner}.{attr}: unknown converter type {tn.__name__}")
@@ -399,7 +402,7 @@ def extract(repo: str):
     fingerprints = {k: ast_fingerprint(v) for k, v in sorted(fp_targets.items())}
 
     twin = {
-        "classes": json_cls, "enums": enums, "problems": problems,
+        "classes": json_cls, "enums": enums, "problems": problems, "unexported_targets": unexported,
         "agencies": agencies, "isspace": isspace, "cp1252_high": cp1252, "html_empty": html_empty,
         "tzs": dict(tzs), "header": hp, "fingerprints": fingerprints,
         "env": {
